@@ -38,6 +38,7 @@ static void patch_in (program_t *, short *, size_t);
 static int str_case_cmp (char *, char *);
 static int check_times (time_t, const char *);
 static int inherited_program_newer (time_t, program_t *);
+static int inherited_program_outdated (program_t *);
 static int file_checksum (FILE *, long, uint32_t *);
 static int locate_in (program_t *);
 static int locate_out (program_t *);
@@ -82,6 +83,22 @@ void save_binary (program_t * prog, mem_block_t * includes, mem_block_t * patche
       includes->current_size > (int) USHRT_MAX)
     /* assume all other sizes ok */
     return;
+
+  /*
+   * The program is laid out for the inherited programs as they are in memory. If one
+   * of them was built from files that have changed since it was loaded, the source of
+   * this program compiles to something else as soon as that program is loaded again,
+   * and load_binary() cannot tell: nothing would be newer than the binary.
+   */
+  for (i = 0; i < (int) prog->num_inherited; i++)
+    {
+      if (inherited_program_outdated (prog->inherit[i].prog))
+        {
+          opt_trace (TT_COMPILE|1, "not saved (inherits /%s, whose source has changed since it was loaded)",
+                     prog->inherit[i].prog->name);
+          return;
+        }
+    }
 
   strcpy (file_name, CONFIG_STR (__SAVE_BINARIES_DIR__));
   if (file_name[0] == '/')
@@ -1050,6 +1067,40 @@ inherited_program_newer (time_t mtime, program_t * prog)
   for (i = 0; i < (int) prog->num_inherited; i++)
     {
       if (inherited_program_newer (mtime, prog->inherit[i].prog))
+        return 1;
+    }
+  return 0;
+}
+
+/*
+ * Is a loaded (inherited) program no longer what loading it now would give?  True if
+ * it is not the program of the object of that name any more, if a file named in its
+ * line number information (its source and every file it included) was modified after
+ * the object was loaded, or if the same holds for a program it inherits.
+ */
+static int
+inherited_program_outdated (program_t * prog)
+{
+  object_t *ob;
+  int i;
+
+  if (!prog->name || !(ob = find_object_by_name (prog->name)) || ob->prog != prog)
+    return 1;
+  if (prog->file_info)
+    {
+      /* <size> <offset of line info> { <lines> <file id> }* ; file id = string index + 1 */
+      int end = prog->file_info[1];
+      for (i = 2; i + 1 < end; i += 2)
+        {
+          int id = prog->file_info[i + 1];
+          if (id > 0 && id <= (int) prog->num_strings
+              && check_times (ob->load_time, prog->strings[id - 1]) == 0)
+            return 1;
+        }
+    }
+  for (i = 0; i < (int) prog->num_inherited; i++)
+    {
+      if (inherited_program_outdated (prog->inherit[i].prog))
         return 1;
     }
   return 0;
